@@ -50,7 +50,7 @@ fn reject_alphabet(r: &TypeRow) -> Vec<String> {
             pick.push(c);
         }
     }
-    pick.extend(['-', ' ', 'A']);
+    pick.extend(['-', ' ', 'A', '\n', '\r', '\t']);
     pick.dedup();
     pick.into_iter().map(|c| c.to_string()).collect()
 }
